@@ -3,6 +3,7 @@ package directive
 import (
 	stdBytes "bytes"
 	"fmt"
+	"unicode/utf8"
 
 	"github.com/jsightapi/jsight-schema-go-library/bytes"
 
@@ -47,6 +48,12 @@ func IsArrayOfTypes(b bytes.Bytes) bool {
 func (d *Directive) AppendParameter(b bytes.Bytes) error {
 	b = unescapeParameter(b)
 	s := b.String()
+
+	if !utf8.Valid(b) {
+		// Different invalid sequences are all replaced by U+FFFD in the output,
+		// so names and paths which differ in the source would not differ there.
+		return fmt.Errorf("%s %q: invalid UTF-8", jerr.IncorrectParameter, s)
+	}
 
 	switch d.Type() { //nolint:exhaustive // We catch all uncovered enumeration.
 	case URL, Get, Post, Put, Patch, Delete:
